@@ -41,14 +41,16 @@ Record cfg := {
     off (proposed fix 0006; before it [0] did too, by Python truthiness). *)
 Definition active (l : option N) : option N := l.
 
-(** One RenderContext. [loops] holds the [length] of the ForLoop objects on
-    [self.loops], innermost first (Python appends at the end; the only reader
-    is a product). *)
+(** One RenderContext. The ForLoop stack [self.loops] is NOT part of a frame:
+    since e5160a7 a block-scoped copy continues the list of the context it was
+    copied from ([ctx.loops = self.loops], the same list object), so the lists
+    are kept per sharing group in [groups] of the state (below). [shared] says
+    that this context's [loops] is its parent's list. *)
 Record frame := {
   depth : N;                   (* _copy_depth *)
   carry : N;                   (* loop_iteration_carry *)
   ns_carry : N;                (* local_namespace_carry *)
-  loops : list N;              (* [loop.length for loop in self.loops], reversed *)
+  shared : bool;               (* copy(block_scope=True): self.loops is parent.loops *)
   scope : N;                   (* self.scope.size() *)
   locals : list (str * N)      (* self.locals: key -> sys.getsizeof(value) *)
 }.
@@ -56,16 +58,17 @@ Record frame := {
 (** RenderContext(template, global_data=...) as Template.render creates it:
     scope = ReadOnlyChainMap(locals, globals, builtin, counters). *)
 Definition root_frame : frame :=
-  {| depth := 0; carry := 1; ns_carry := 0; loops := []; scope := 4; locals := [] |}.
+  {| depth := 0; carry := 1; ns_carry := 0; shared := false; scope := 4; locals := [] |}.
 
-(** [reduce(mul, (loop.length for loop in self.loops), init)] *)
-Definition loop_product (f : frame) (init : N) : N := fold_left N.mul (loops f) init.
+(** [reduce(mul, (loop.length for loop in self.loops), init)], [lps] the lengths
+    on [self.loops], innermost first (the only reader is a product). *)
+Definition loop_product (lps : list N) (init : N) : N := fold_left N.mul lps init.
 
 (** context.py raise_for_loop_limit(length) *)
-Definition raise_for_loop_limit (c : cfg) (f : frame) (length : N) : res unit :=
+Definition raise_for_loop_limit (c : cfg) (f : frame) (lps : list N) (length : N) : res unit :=
   match active (loop_limit c) with
   | Some l =>
-      if l <? loop_product f (length * carry f)
+      if l <? loop_product lps (length * carry f)
       then LErr LoopIterationLimitError None else Ok tt
   | None => Ok tt
   end.
@@ -88,26 +91,26 @@ Definition extend_check (c : cfg) (f : frame) : res unit :=
 Definition copy_check (c : cfg) (f : frame) : res unit :=
   if depth_limit c <? depth f then LErr ContextDepthError None else Ok tt.
 
-(** The context that copy() returns. *)
-Definition copy_frame (c : cfg) (f : frame) (carry_loops : bool) : frame :=
+(** The context that copy() returns: a block-scoped copy keeps the carry (the
+    enclosing loops are on the list it continues); any other copy starts an
+    empty list and takes the product of the loops so far as its carry, if asked. *)
+Definition copy_frame (c : cfg) (f : frame) (lps : list N) (carry_loops block_scope : bool) : frame :=
   {| depth := depth f + 1;
-     carry := if carry_loops then loop_product f (carry f) else 1;
+     carry := if block_scope then carry f
+              else if carry_loops then loop_product lps (carry f) else 1;
      ns_carry := size_of_locals c f;
-     loops := [];
+     shared := block_scope;
      scope := 4;
      locals := [] |}.
 
 Definition set_scope (f : frame) (n : N) : frame :=
-  {| depth := depth f; carry := carry f; ns_carry := ns_carry f; loops := loops f;
+  {| depth := depth f; carry := carry f; ns_carry := ns_carry f; shared := shared f;
      scope := n; locals := locals f |}.
-Definition set_loops (f : frame) (l : list N) : frame :=
-  {| depth := depth f; carry := carry f; ns_carry := ns_carry f; loops := l;
-     scope := scope f; locals := locals f |}.
 Definition set_carry (f : frame) (n : N) : frame :=
-  {| depth := depth f; carry := n; ns_carry := ns_carry f; loops := loops f;
+  {| depth := depth f; carry := n; ns_carry := ns_carry f; shared := shared f;
      scope := scope f; locals := locals f |}.
 Definition set_locals (f : frame) (l : list (str * N)) : frame :=
-  {| depth := depth f; carry := carry f; ns_carry := ns_carry f; loops := loops f;
+  {| depth := depth f; carry := carry f; ns_carry := ns_carry f; shared := shared f;
      scope := scope f; locals := l |}.
 
 (** * Operations *)
@@ -116,13 +119,14 @@ Inductive op :=
 | EnterFor (n : N)        (* with context.loop(namespace, forloop), forloop.length = n *)
 | EnterCarry (n : N)      (* with context.carry_loop(n) *)
 | Extend                  (* with context.extend(namespace[, template]) *)
-| EnterCopy (carry_loops : bool)
-                          (* ctx = context.copy(..., carry_loop_iterations=carry_loops);
-                             what follows runs on ctx until the matching Exit *)
+| EnterCopy (carry_loops block_scope : bool)
+                          (* ctx = context.copy(..., carry_loop_iterations=carry_loops,
+                             block_scope=block_scope); what follows runs on ctx until the
+                             matching Exit *)
 | Exit                    (* leave the innermost open with-block / copied context *)
 | Assign (k : str) (sz : N)   (* context.assign(k, v) with sys.getsizeof(v) = sz *)
 | CheckLoop (n : N)       (* context.raise_for_loop_limit(n) *)
-| EnterSuper (k : nat).   (* {{ block.super }}: BlockDrop.__getitem__ (extends_tag.py:383-396)
+| EnterSuper (k : nat).   (* {{ block.super }}: BlockDrop.__getitem__ / __getitem_async__
                              runs  with self.context.extend({...})  where self.context is
                              the context the block tag was rendered with — the (k+1)-th
                              context below the current one — and renders the parent block
@@ -132,22 +136,40 @@ Inductive op :=
     carry_loop() restores in its [finally]. *)
 Inductive bracket :=
 | BFor | BCarry (saved : N) | BExt | BCopy
-| BSuper (child : frame) (between : list frame).
-    (* the suspended current context and the contexts between it and the target *)
+| BSuper (child : frame) (between : list frame) (lists : list (list N)).
+    (* the suspended current context, the contexts between it and the target,
+       and the loop lists that belong to them only *)
 
 Record state := {
   cur : frame;              (* the context the current tag renders with *)
   parents : list frame;     (* the contexts it was (transitively) copied from *)
+  groups : list (list N);   (* the distinct [loops] lists of cur :: parents, the current
+                               context's first; lengths innermost first. A context with
+                               [shared = true] uses the same list as its parent. *)
   opened : list bracket
 }.
 
-Definition init : state := {| cur := root_frame; parents := []; opened := [] |}.
+Definition init : state :=
+  {| cur := root_frame; parents := []; groups := [[]]; opened := [] |}.
+
+(** [self.loops] of the current context. *)
+Definition cur_loops (s : state) : list N := hd [] (groups s).
 
 Definition with_cur (s : state) (f : frame) : state :=
-  {| cur := f; parents := parents s; opened := opened s |}.
+  {| cur := f; parents := parents s; groups := groups s; opened := opened s |}.
 
 Definition push (s : state) (f : frame) (b : bracket) : state :=
-  {| cur := f; parents := parents s; opened := b :: opened s |}.
+  {| cur := f; parents := parents s; groups := groups s; opened := b :: opened s |}.
+
+Definition set_cur_loops (gs : list (list N)) (l : list N) : list (list N) := l :: tl gs.
+
+(** How many of the lists at the head of [groups] belong only to the given
+    contexts (a context that shares its list with its parent owns none). *)
+Fixpoint own_lists (fs : list frame) : nat :=
+  match fs with
+  | [] => 0
+  | f :: r => (if shared f then 0 else 1) + own_lists r
+  end.
 
 (** Leaving a bracket (the [finally] clauses, innermost first). [None]: there is
     nothing to leave — not a Python execution. *)
@@ -156,22 +178,28 @@ Definition exit_bracket (s : state) : option state :=
   | [] => None
   | BFor :: o =>
       (* loop(): self.loops.pop(); then extend()'s finally: self.scope.pop() *)
-      Some {| cur := set_scope (set_loops (cur s) (tl (loops (cur s)))) (N.pred (scope (cur s)));
-              parents := parents s; opened := o |}
+      Some {| cur := set_scope (cur s) (N.pred (scope (cur s)));
+              parents := parents s;
+              groups := set_cur_loops (groups s) (tl (cur_loops s)); opened := o |}
   | BCarry saved :: o =>
-      Some {| cur := set_carry (cur s) saved; parents := parents s; opened := o |}
+      Some {| cur := set_carry (cur s) saved; parents := parents s;
+              groups := groups s; opened := o |}
   | BExt :: o =>
       Some {| cur := set_scope (cur s) (N.pred (scope (cur s)));
-              parents := parents s; opened := o |}
+              parents := parents s; groups := groups s; opened := o |}
   | BCopy :: o =>
       match parents s with
-      | p :: ps => Some {| cur := p; parents := ps; opened := o |}
+      | p :: ps =>
+          Some {| cur := p; parents := ps;
+                  groups := if shared (cur s) then groups s else tl (groups s);
+                  opened := o |}
       | [] => None
       end
-  | BSuper child between :: o =>
+  | BSuper child between lists :: o =>
       (* extend()'s finally on the target; then the suspended contexts go on *)
       Some {| cur := child;
               parents := between ++ set_scope (cur s) (N.pred (scope (cur s))) :: parents s;
+              groups := lists ++ groups s;
               opened := o |}
   end.
 
@@ -181,10 +209,12 @@ Definition step (c : cfg) (s : state) (o : op) : res unit * state :=
   | EnterFor n =>
       (* loop(): raise_for_loop_limit(forloop.length); with self.extend(ns):
                    self.loops.append(forloop); try: yield finally: self.loops.pop() *)
-      match raise_for_loop_limit c f n with
+      match raise_for_loop_limit c f (cur_loops s) n with
       | Ok _ =>
           match extend_check c f with
-          | Ok _ => (Ok tt, push s (set_scope (set_loops f (n :: loops f)) (scope f + 1)) BFor)
+          | Ok _ => (Ok tt, {| cur := set_scope f (scope f + 1); parents := parents s;
+                               groups := set_cur_loops (groups s) (n :: cur_loops s);
+                               opened := BFor :: opened s |})
           | e => (e, s)
           end
       | e => (e, s)
@@ -192,7 +222,7 @@ Definition step (c : cfg) (s : state) (o : op) : res unit * state :=
   | EnterCarry n =>
       (* carry_loop(): raise_for_loop_limit(length); carry = self.loop_iteration_carry;
                          self.loop_iteration_carry = carry * length *)
-      match raise_for_loop_limit c f n with
+      match raise_for_loop_limit c f (cur_loops s) n with
       | Ok _ => (Ok tt, push s (set_carry f (carry f * n)) (BCarry (carry f)))
       | e => (e, s)
       end
@@ -201,9 +231,10 @@ Definition step (c : cfg) (s : state) (o : op) : res unit * state :=
       | Ok _ => (Ok tt, push s (set_scope f (scope f + 1)) BExt)
       | e => (e, s)
       end
-  | EnterCopy cl =>
+  | EnterCopy cl bs =>
       match copy_check c f with
-      | Ok _ => (Ok tt, {| cur := copy_frame c f cl; parents := f :: parents s;
+      | Ok _ => (Ok tt, {| cur := copy_frame c f (cur_loops s) cl bs; parents := f :: parents s;
+                           groups := if bs then groups s else [] :: groups s;
                            opened := BCopy :: opened s |})
       | e => (e, s)
       end
@@ -222,14 +253,18 @@ Definition step (c : cfg) (s : state) (o : op) : res unit * state :=
           then (LErr LocalNamespaceLimitError None, s') else (Ok tt, s')
       | None => (Ok tt, s')
       end
-  | CheckLoop n => (raise_for_loop_limit c f n, s)
+  | CheckLoop n => (raise_for_loop_limit c f (cur_loops s) n, s)
   | EnterSuper k =>
       match nth_error (parents s) k with
       | Some target =>
           match extend_check c target with
-          | Ok _ => (Ok tt, {| cur := set_scope target (scope target + 1);
-                               parents := skipn (S k) (parents s);
-                               opened := BSuper f (firstn k (parents s)) :: opened s |})
+          | Ok _ =>
+              let susp := f :: firstn k (parents s) in
+              (Ok tt, {| cur := set_scope target (scope target + 1);
+                         parents := skipn (S k) (parents s);
+                         groups := skipn (own_lists susp) (groups s);
+                         opened := BSuper f (firstn k (parents s))
+                                     (firstn (own_lists susp) (groups s)) :: opened s |})
           | e => (e, s)
           end
       | None => (PyExc OtherPyError, s)   (* no such context: not a Python execution *)
@@ -270,7 +305,7 @@ Fixpoint spec_open (ops : list op) (stk : list sbracket) : list sbracket :=
   | EnterFor n :: r => spec_open r (SLoop n :: stk)
   | EnterCarry n :: r => spec_open r (SLoop n :: stk)
   | Extend :: r => spec_open r (SOther :: stk)
-  | EnterCopy _ :: r => spec_open r (SCopy :: stk)
+  | EnterCopy _ _ :: r => spec_open r (SCopy :: stk)
   | Exit :: r => spec_open r (tl stk)
   | Assign _ _ :: r => spec_open r stk
   | CheckLoop _ :: r => spec_open r stk
@@ -300,7 +335,7 @@ Definition plain (o : op) : Prop :=
   match o with EnterSuper _ => False | _ => True end.
 
 Definition counted (o : op) : Prop :=
-  match o with EnterCopy false | EnterSuper _ => False | _ => True end.
+  match o with EnterCopy false false | EnterSuper _ => False | _ => True end.
 
 (** Number of open brackets that consume context depth (everything except
     carry_loop). *)
@@ -408,11 +443,11 @@ Section Go.
         do s4 <- ostep c s3 Exit;;
         ostep c s4 Exit
     | NRender p =>
-        do s1 <- ostep c s (EnterCopy true);;
+        do s1 <- ostep c s (EnterCopy true false);;
         do s2 <- partial p s1;;
         ostep c s2 Exit
     | NRenderFor n p =>
-        do s1 <- ostep c s (EnterCopy true);;
+        do s1 <- ostep c s (EnterCopy true false);;
         do s2 <- ostep c s1 (EnterCarry n);;
         do s3 <- repeat_body (N.to_nat n) (partial p) s2;;
         do s4 <- ostep c s3 Exit;;
@@ -447,7 +482,7 @@ Fixpoint exec (fuel : nat) (c : cfg) (env : tenv) (l : list node) (s : state) : 
        | O => OutOfFuel
        | S fuel' =>
            do b <- lookup env p;;
-           do s1 <- ostep c s (EnterCopy true);;
+           do s1 <- ostep c s (EnterCopy true false);;
            do s2 <- exec fuel' c env b s1;;
            ostep c s2 Exit
        end)
@@ -489,8 +524,9 @@ Fixpoint build_block_stacks (fuel : nat) (ld : loader) (seen : list str) (t : st
 
 (** * Vocabulary of the property statements *)
 
-(** (product of the loops on this context's stack) x (its carry). *)
-Definition eff (f : frame) : N := loop_product f (carry f).
+(** (product of the loops on the current context's stack) x (its carry): what
+    raise_for_loop_limit multiplies a new loop's length with. *)
+Definition eff (s : state) : N := loop_product (cur_loops s) (carry (cur s)).
 
 Definition opt_le (a b : option N) : Prop :=
   match b with
@@ -507,10 +543,11 @@ Definition relaxed (c c' : cfg) : Prop :=
 (** [local_namespace_carry] is bookkeeping of the limit itself (it is 0 when
     the limit is off); everything else must coincide. *)
 Definition erase_f (f : frame) : frame :=
-  {| depth := depth f; carry := carry f; ns_carry := 0; loops := loops f;
+  {| depth := depth f; carry := carry f; ns_carry := 0; shared := shared f;
      scope := scope f; locals := locals f |}.
 Definition erase (s : state) : state :=
-  {| cur := erase_f (cur s); parents := map erase_f (parents s); opened := opened s |}.
+  {| cur := erase_f (cur s); parents := map erase_f (parents s); groups := groups s;
+     opened := opened s |}.
 
 Definition unlimited (d : N) : cfg := {| depth_limit := d; loop_limit := None; ns_limit := None |}.
 
@@ -536,24 +573,47 @@ Definition inh_fine (r : res str) : Prop :=
 
 Definition pair_eqb (a b : str * N) : bool := str_eqb (fst a) (fst b) && N.eqb (snd a) (snd b).
 
-Definition frame_eqb (a b : frame) : bool :=
-  N.eqb (depth a) (depth b) && N.eqb (carry a) (carry b) && N.eqb (ns_carry a) (ns_carry b)
-  && list_eqb N.eqb (loops a) (loops b) && N.eqb (scope a) (scope b)
-  && list_eqb pair_eqb (locals a) (locals b).
+(** A context as the harness sees it: the fields of the frame plus the lengths
+    on its [loops] list (innermost first) and whether that list is the parent's. *)
+Record oframe := {
+  o_depth : N; o_carry : N; o_ns_carry : N; o_loops : list N; o_scope : N;
+  o_locals : list (str * N); o_shared : bool
+}.
+
+Definition mkframe (d cy nc : N) (lp : list N) (sc : N) (lc : list (str * N)) (sh : bool) : oframe :=
+  {| o_depth := d; o_carry := cy; o_ns_carry := nc; o_loops := lp; o_scope := sc;
+     o_locals := lc; o_shared := sh |}.
+
+Definition view1 (f : frame) (lp : list N) : oframe :=
+  mkframe (depth f) (carry f) (ns_carry f) lp (scope f) (locals f) (shared f).
+
+Fixpoint views (fs : list frame) (gs : list (list N)) : list oframe :=
+  match fs with
+  | [] => []
+  | f :: r => view1 f (hd [] gs) :: views r (if shared f then gs else tl gs)
+  end.
+
+Definition observe (s : state) : list oframe := views (cur s :: parents s) (groups s).
+
+Definition frame_eqb (a b : oframe) : bool :=
+  N.eqb (o_depth a) (o_depth b) && N.eqb (o_carry a) (o_carry b)
+  && N.eqb (o_ns_carry a) (o_ns_carry b)
+  && list_eqb N.eqb (o_loops a) (o_loops b) && N.eqb (o_scope a) (o_scope b)
+  && list_eqb pair_eqb (o_locals a) (o_locals b) && Bool.eqb (o_shared a) (o_shared b).
 
 Definition unit_eqb (_ _ : unit) : bool := true.
 Definition outcome_eqb (a b : res unit) : bool := res_eqb_nopos unit_eqb a b.
 
 (** Observation after each step: the outcome and every live context, current
     one first. *)
-Definition obs := (res unit * list frame)%type.
+Definition obs := (res unit * list oframe)%type.
 
 Fixpoint trace (c : cfg) (s : state) (ops : list op) : list obs :=
   match ops with
   | [] => []
   | o :: ops' =>
       let (r, s1) := step c s o in
-      (r, cur s1 :: parents s1) :: trace c s1 ops'
+      (r, observe s1) :: trace c s1 ops'
   end.
 
 Definition obs_eqb (a b : obs) : bool :=
@@ -561,19 +621,16 @@ Definition obs_eqb (a b : obs) : bool :=
 
 Definition trace_eqb (a b : list obs) : bool := list_eqb obs_eqb a b.
 
-Definition mkframe (d cy nc : N) (lp : list N) (sc : N) (lc : list (str * N)) : frame :=
-  {| depth := d; carry := cy; ns_carry := nc; loops := lp; scope := sc; locals := lc |}.
-
 (** Lighter observation for long traces of real renders: the outcome, the
     current context and the number of contexts below it. *)
-Definition lobs := (res unit * (frame * nat))%type.
+Definition lobs := (res unit * (oframe * nat))%type.
 
 Fixpoint ltrace (c : cfg) (s : state) (ops : list op) : list lobs :=
   match ops with
   | [] => []
   | o :: ops' =>
       let (r, s1) := step c s o in
-      (r, (cur s1, length (parents s1))) :: ltrace c s1 ops'
+      (r, (view1 (cur s1) (cur_loops s1), length (parents s1))) :: ltrace c s1 ops'
   end.
 
 Definition lobs_eqb (a b : lobs) : bool :=
